@@ -472,6 +472,12 @@ fn char_table(universes: &[Universe], kf: &[KnownFinding], st: &mut Stats) {
                     if (0..=0x10FFFF).contains(&v) {
                         probes.push(v as u32);
                     }
+                    // astral characters sharing the low 16 bits of a range bound
+                    for plane in [0x1_0000i64, 0x2_0000, 0x10_0000] {
+                        if (0..=0xFFFF).contains(&v) {
+                            probes.push((v + plane) as u32);
+                        }
+                    }
                 }
             }
         }
